@@ -15,6 +15,8 @@ IsControl(c) == c < 32 \/ c = 127
 Upper(c) == IF c >= 97 /\ c <= 122 THEN <<c - 32>>
             ELSE IF c = EACUTE THEN <<EACUTE_UP>>
             ELSE IF c = 223 THEN <<83, 83>>          \* sharp s -> SS
+            ELSE IF c = 305 THEN <<73>>              \* dotless i -> I (two bytes become one)
+            ELSE IF c = 383 THEN <<83>>              \* long s -> S
             ELSE <<c>>
 Lower(c) == IF c >= 65 /\ c <= 90 THEN <<c + 32>>
             ELSE IF c = EACUTE_UP THEN <<EACUTE>>
